@@ -43,8 +43,10 @@ fn main() {
     let prop = args.get(1).cloned().unwrap_or_default();
     let mut mode = Mode::Quick;
     let mut seed = 1u64;
-    let mut out = std::path::PathBuf::from("/verif/harness/target/out");
-    let mut driver = "/verif/lean/.lake/build/bin/kvarn_model_driver".to_owned();
+    // where this copy of the machinery lives (a snapshot of /verif runs with VERIF_ROOT pointing at itself)
+    let root = std::env::var("VERIF_ROOT").unwrap_or_else(|_| "/verif".to_owned());
+    let mut out = std::path::PathBuf::from(format!("{root}/harness/target/out"));
+    let mut driver = format!("{root}/lean/.lake/build/bin/kvarn_model_driver");
     let mut replay: Option<String> = None;
     let mut i = 2;
     while i < args.len() {
@@ -77,7 +79,7 @@ fn main() {
         std::panic::set_hook(Box::new(|_| {}));
     }
     std::fs::create_dir_all(&out).unwrap();
-    let work = std::path::PathBuf::from("/verif/harness/target/work").join(&prop);
+    let work = std::path::PathBuf::from(format!("{root}/harness/target/work")).join(&prop);
     std::fs::create_dir_all(&work).unwrap();
     let mut ctx = Ctx { mode, seed, driver, work, group_budget_s: 240 };
     let t0 = std::time::Instant::now();
@@ -89,7 +91,7 @@ fn main() {
     // the whole property: 8 min quick, 45 min thorough (check.py allows the process 3400 s)
     ctx.group_budget_s = ((if ctx.mode == Mode::Quick { 480 } else { 2700 }) / groups.len() as u64).max(60);
     // corpus of minimised past failures: harness/corpus/<prop>.ops, one line per case
-    let corpus: Vec<String> = std::fs::read_to_string(format!("/verif/harness/corpus/{prop}.ops"))
+    let corpus: Vec<String> = std::fs::read_to_string(format!("{root}/harness/corpus/{prop}.ops"))
         .unwrap_or_default()
         .lines()
         .filter(|l| !l.trim().is_empty() && !l.starts_with('#'))
